@@ -4,8 +4,10 @@ schedules of OVERLAPPING notifications for the real WatchedBranch._update, their
 See harness/impl/c30_guard.py (gated fakes on the deterministic loop) and harness/translate/c30_guard.py (translator)."""
 import concurrent.futures
 import itertools
+import json
+import os
 
-from harness.core import Corr, Disagreement, Failure, coq_eval, NPROC
+from harness.core import Corr, Disagreement, Failure, coq_eval, NPROC, VERIF
 
 GUARD_HEADER = 'From HailV Require Import Common.Prelude CI.Guard.'
 KINDS = ['github', 'batch', 'all']
@@ -101,7 +103,7 @@ def random_cases(ctx, count):
                 sched.append(['spawn', rng.choice(KINDS)])
                 n_spawn += 1
             elif r < 0.14:
-                sched.append(['fail', rng.randrange(n_spawn)])
+                sched.append([rng.choice(['fail', 'fail', 'failhttp']), rng.randrange(n_spawn)])
             elif r < 0.22:
                 sched.append(['world', rng.choice(WORLD_EVENTS)])
             elif r < 0.30:
@@ -113,8 +115,21 @@ def random_cases(ctx, count):
     return cases
 
 
+def corpus_cases():
+    out = []
+    cdir = os.path.join(VERIF, 'corpus', 'C30')
+    if os.path.isdir(cdir):
+        for f in sorted(os.listdir(cdir)):
+            if f.endswith('.json'):
+                d = json.load(open(os.path.join(cdir, f)))
+                c = d.get('case') or {}
+                if 'schedule' in c:
+                    out.append({'prefix': c.get('prefix', []), 'schedule': c['schedule'], 'family': 'corpus'})
+    return out
+
+
 def all_cases(ctx, scale=1):
-    cases = []
+    cases = corpus_cases()
     cases += systematic(ctx, 'two-ready', 'batch', 1, ctx.scale(3, 27))
     cases += systematic(ctx, 'two-posted', 'all', ctx.scale(3, 1), ctx.scale(2, 27))
     cases += systematic(ctx, 'one-new', 'github', ctx.scale(4, 1), ctx.scale(1, 27))
@@ -196,6 +211,14 @@ def correspond_guard(ctx):
 
 # ---------------------------------------------------------------------------------------------------- oracle
 
+def fault_class(r):
+    """class of the schedule for the finding key: was the response to a merge request that GitHub had already performed lost
+    (the fake PUT raised at its gate AFTER the effect)?  Otherwise: plain overlapping notifications (failures, if any, hit requests
+    before their effect or other calls)."""
+    lost = any(s.get('action', [None])[0] in ('fail', 'failhttp') and s.get('gate') == 'gh.put>' for s in r['steps'])
+    return 'lost-merge-response' if lost else 'overlapped'
+
+
 def oracle_guard(ctx, budget, check_merges):
     cases, res = run_cases(ctx, 1 if budget <= 1 else 2)
     best = {}
@@ -211,7 +234,14 @@ def oracle_guard(ctx, budget, check_merges):
             bad.append(('overlapping-update-bodies', {'step': i, 'action': r['steps'][i]['action'], 'tasks': r['steps'][i]['tasks'],
                                                       'flags': r['steps'][i]['flags']}))
         for key, m in check_merges(r['merges']):
-            bad.append(('overlapped:' + key, m))
+            bad.append((fault_class(r) + ':' + key, m))
+        live = [s for s in r['steps'] if not s.get('skipped')]
+        if r['all_done'] and live:
+            fl = live[-1]['flags']
+            if fl[0]:
+                bad.append(('updating-left-set', {'flags': fl, 'exceptions': sorted({s['exc'] for s in live if s.get('exc')})}))
+            if any(fl[1:]) and not any(s.get('exc') for s in live):
+                bad.append(('lost-wakeup', {'flags': fl, 'tasks': live[-1]['tasks']}))
         size = sum(1 for s in r['steps'] if not s.get('skipped'))
         for key, obs in bad:
             if key not in best or size < best[key][0]:
@@ -219,16 +249,22 @@ def oracle_guard(ctx, budget, check_merges):
     fails = []
     for key, (size, c, obs) in sorted(best.items()):
         what = ('two tasks are inside sub-operations of WatchedBranch._update at the same time' if key == 'overlapping-update-bodies'
-                else f'under overlapping notifications CI merged PR {obs.get("pr")} at {obs.get("sha")} with: {key}')
+                else 'every notification task has finished but `updating` is still True: later notifications will all return at once'
+                if key == 'updating-left-set'
+                else 'every notification task has finished without an exception but a *_changed flag is still set: the notification that set it '
+                     'was never served' if key == 'lost-wakeup'
+                else f'notification tasks on the gated fakes: CI merged PR {obs.get("pr")} at {obs.get("sha")} with: {key}')
         fails.append(Failure(key, what, {'prefix': c['prefix'], 'schedule': c['schedule']},
-                             'at most one task inside _update_github / _update_batch / _heal / try_to_merge at any time; every merge approved, '
-                             'green, tested against the current target; one merge per target commit', obs))
+                             'at most one task inside _update_github / _update_batch / _heal / try_to_merge at any time; when all notification tasks '
+                             'have finished `updating` is False and (no exception) every *_changed flag is False; every merge approved, green, tested '
+                             'against the current target; one merge per target commit', obs))
     return fails, {'evaluations': len(cases), 'distinct_nontrivial': n_overlap_runs, 'merges': n_merges}
 
 
 def replay_guard(ctx, case, check_merges):
     r = _impl(ctx, [{'prefix': case['prefix'], 'schedule': case['schedule']}])[0]
     return {'prefix': case['prefix'], 'schedule': case['schedule'], 'max_tasks_inside_update_bodies': r['max_in'],
+            'final_flags': next((s['flags'] for s in reversed(r['steps']) if not s.get('skipped')), None), 'all_tasks_done': r['all_done'],
             'merges': r['merges'], 'violations': ([['overlapping-update-bodies', None]] if r['max_in'] >= 2 else [])
-            + [['overlapped:' + k, m] for k, m in check_merges(r['merges'])],
+            + [[fault_class(r) + ':' + k, m] for k, m in check_merges(r['merges'])],
             'steps': [{k: s.get(k) for k in ('action', 'gate', 'flags', 'tasks', 'subops', 'exc')} for s in r['steps'] if not s.get('skipped')]}
